@@ -22,6 +22,11 @@ CHECKS = {
          "Every (message, offset, magnitude, API) combination of the stated finite family is executed on the real decoders; allocation (TotalAlloc delta) and reader-call counts are measured per call and compared with K + c*N.",
          "K=12 MiB, c=64; time linearity only via call counts; generated decoders are plugin/api until the cell universe extension.",
          "DESIGN.md §3 C13", "E1"),
+ "C09": ("exploration",
+         "bounded-exhaustive enumeration of (numeric position x boundary literal x notation x mode) programs and of duplicate/self-reference shapes, each compiled by the real compiler in a worker process; accepted => well-formed oracle",
+         "Every combination of ~30 numeric positions with ~100 boundary literals in decimal and hex, strict and non-strict, plus 30 structural shapes, is compiled; on acceptance every compiled number is compared with the source literal and its type range.",
+         "Only the accepted=>well-formed direction; literals limited to the boundary alphabet.",
+         "DESIGN.md §3 C09", "E1"),
  "C02": ("exploration",
          "bounded-exhaustive enumeration of wire values (explicit odometer, smallest first) judged by an independent spec codec",
          "Every wire value of a stated finite domain (all 11 types, boundary scalars, width<=2, depth<=2 quick / 3 thorough) is pushed through all five codec paths of the real code and compared bit-exactly with ref/tbin. Exhaustive within the bound; a coverage statement, not a sample.",
